@@ -263,8 +263,8 @@ def _plan_c0516(tier, seed):
         runs = shards("std-debug", "c05", 8, ["seed=%d" % seed, "cases=8000"], timeout=600)
         runs += shards("xen-debug", "c05", 2, ["seed=%d" % (seed + 3), "cases=2000"], timeout=600)
         return runs
-    runs = shards("std-debug", "c05", 16, ["seed=%d" % seed, "cases=300000"], timeout=3400)
-    runs += shards("std-release", "c05", 8, ["seed=%d" % (seed + 1), "cases=160000"], timeout=3400)
+    runs = shards("std-debug", "c05", 16, ["seed=%d" % seed, "cases=300000", "litmus=30000000"], timeout=3400)
+    runs += shards("std-release", "c05", 8, ["seed=%d" % (seed + 1), "cases=160000", "litmus=100000000"], timeout=3400)
     runs += shards("xen-debug", "c05", 4, ["seed=%d" % (seed + 3), "cases=80000"], timeout=3400)
     runs += shards("miri", "c05", 16, ["seed=%d" % seed, "cases=900", "maxops=40"], timeout=3400)
     return runs
@@ -491,8 +491,8 @@ def plan_c06(tier, seed):
     if tier == "quick":
         return [Run("std-debug", "c06", ["seed=%d" % seed, "tear=200000"], timeout=600, crash_is_violation=True),
                 Run("std-release", "c06", ["seed=%d" % seed, "tear=400000"], timeout=600, crash_is_violation=True)]
-    return [Run("std-debug", "c06", ["seed=%d" % seed, "tear=20000000"], timeout=3000, crash_is_violation=True),
-            Run("std-release", "c06", ["seed=%d" % seed, "tear=60000000"], timeout=3000, crash_is_violation=True),
+    return [Run("std-debug", "c06", ["seed=%d" % seed, "tear=20000000", "sb=30000000"], timeout=3000, crash_is_violation=True),
+            Run("std-release", "c06", ["seed=%d" % seed, "tear=60000000", "sb=100000000"], timeout=3000, crash_is_violation=True),
             Run("xen-debug", "c06", ["seed=%d" % seed, "tear=400000"], timeout=3000, crash_is_violation=True)]
 
 
